@@ -40,7 +40,7 @@ def run(ctx, deep=False):
     thorough = deep or ctx.tier == "thorough"
     rng = ctx.rng
     ctx.coverage["rule"] = (
-        "streams of 1..3 frames written by the real send path (all registered message ids, wrappers included, both generations); "
+        "streams of 1..3 frames written by the real send path (all registered message ids, wrappers included, both generations), in 30 % of the streams with the first frame repeated back to back; "
         "every single cut point, every pair of cut points for short streams, random multi-cut segmentations, byte-by-byte delivery, "
         "with 0..60 loop turns or pauses of 1/8 s .. 5 min between segments and before the stream, in a third of the runs with the application transmitting between the segments; fed to the real AirTouchSocket through the in-memory transport and the real "
         "asyncio StreamReader; the delivered (header, message) lists must equal those of the unsegmented delivery and the Lean "
@@ -61,7 +61,13 @@ def run(ctx, deep=False):
         streams = []
         for i in range(0, min(len(frames), 90 if thorough else 24), 1):
             k = rng.choice([1, 1, 2, 3])
-            streams.append(b"".join(frames[i:i + k]))
+            if rng.random() < 0.3:
+                # a console that says the same thing again (the very same frame two or three times back to back, then possibly another):
+                # each copy is delivered, wherever the segment boundaries fall
+                streams.append(frames[i] * rng.choice([2, 2, 3]) + b"".join(frames[i + 1:i + k]))
+                ctx.count("streams with a frame repeated back to back")
+            else:
+                streams.append(b"".join(frames[i:i + k]))
         items = []
         meta = []
         for st in streams[: (60 if thorough else 14)]:
